@@ -537,6 +537,13 @@ func (g *G) coarse(t *ty.Ty, v *ty.Val) *ty.Val {
 	return nil
 }
 
+func btoi(b bool) int {
+	if b {
+		return 1
+	}
+	return 0
+}
+
 func isBoolUnder(env *ty.Env, t *ty.Ty) bool {
 	u := env.Under(t)
 	return u.K == ty.Basic && u.B == "bool"
@@ -835,6 +842,27 @@ func (g *G) elemOps(i int, t *ty.Ty) {
 		for _, l := range lists {
 			for _, sc := range g.scripts(len(l.v.Elems)) {
 				g.ow.op(po.op, tn, g.inst(l).Wire(), sc)
+			}
+		}
+		// long lists (an implementation may switch strategy by length) with predicates that are not prefix-closed:
+		// they fail early and hold again later; the call log shows the order and number of the calls
+		if i%7 == 0 || i == 3 || i == 10 {
+			for _, n := range []int{33, 40, 100} {
+				es := make([]*ty.Val, n)
+				for j := range es {
+					es[j] = pool[(j*j+j/3)%len(pool)]
+				}
+				var a, b, c, d string
+				for j := 0; j < n; j++ {
+					a += string('0' + byte(btoi(j%7 != 3)))
+					b += string('0' + byte(btoi(j < n-2)))
+					c += string('0' + byte(btoi(j < 20 || j > 24)))
+					d += "1"
+				}
+				for _, sc := range []string{a, b, c, d} {
+					g.stat("pred-long-lists", 1)
+					g.ow.op(po.op, tn, g.vg.Inst(slice(es, n%2)).Wire(), "b"+sc)
+				}
 			}
 		}
 	}
@@ -1291,7 +1319,16 @@ func main() {
 		// a struct whose own Compare (pointer parameter) returns the DIFFERENCE of the first fields: derived Compare on RD,
 		// and on a struct that holds one, takes values below -1 and above 1 (hand-written: consistency ops only)
 		&ty.Decl{Name: "RD", Pkg: "", Under: ty.St(ty.F("A", b("int")), ty.F("B", b("string")))},
-		&ty.Decl{Name: "WD", Pkg: "", Under: ty.St(ty.F("V", n(shadow0+11)), ty.F("N", b("int")))})
+		&ty.Decl{Name: "WD", Pkg: "", Under: ty.St(ty.F("V", n(shadow0+11)), ty.F("N", b("int")))},
+		// an exported type of ANOTHER package that bears the name of p.UE2 and has no methods (==-comparable): what is
+		// remembered about a type must not be keyed by its bare name. Its ops come before those of p.UE2.
+		&ty.Decl{Name: "UE2", Pkg: "ext", Under: ty.St(ty.F("A", b("int")), ty.F("B", b("string")))},
+		// two different instances of ONE generic struct (Lib 55 OptI = Opt[int], 56 OptP = Opt[*int]), the first
+		// ==-comparable, the second not: the struct is not comparable (Unique must not key a map by it)
+		&ty.Decl{Name: "G2", Pkg: "", Under: ty.St(ty.F("A", n(55)), ty.F("B", n(56)))})
+	if env.Decls[55].Name != "OptI" || env.Decls[56].Name != "OptP" || env.Decls[32].Name != "UE2" {
+		must(fmt.Errorf("gen.Lib: declarations 32 / 55 / 56 are not UE2 / OptI / OptP"))
+	}
 	word, key, bb, rt, rc := n(shadow0), n(shadow0+1), n(shadow0+2), n(shadow0+3), n(shadow0+4)
 	uh, wh, cs, csh := n(60), n(shadow0+6), n(shadow0+7), n(shadow0+8)
 	if env.Decls[60].Name != "UH" {
@@ -1299,6 +1336,7 @@ func main() {
 	}
 	ui, wi := n(shadow0+9), n(shadow0+10)
 	rd, wd := n(shadow0+11), n(shadow0+12)
+	xue2, g2 := n(shadow0+13), n(shadow0+14)
 	nu64 := n(46)
 	localSrc := map[string]string{"RC": `
 func (this *RC) Compare(that *RC) int {
@@ -1379,7 +1417,8 @@ func (this CSH) Hash() int32         { return int32(len(this)) }
 		// types with their own Equal / Compare / Hash methods (pointer receivers; they look at the first field only, so
 		// Equal is coarser than the fields) as VALUE elements, behind pointers and slices and inside a struct;
 		// a recursive named slice as element of the two-value forms
-		n(31), p(n(31)), ty.Sl(n(31)), n(33), ty.Sl(rt)}
+		n(31), p(n(31)), ty.Sl(n(31)), n(33), ty.Sl(rt),
+		xue2, g2}
 	keys := []*ty.Ty{b("int"), b("string"), n(0), n(5), ty.Ar(2, b("int")), b("float64"), b("float32"), b("complex128"), n(2), b("uint64")}
 	// int32 = rune: a rune -> rune mapping must not be special-cased (negative, surrogate, > MaxRune results)
 	results := []*ty.Ty{b("int"), b("string"), p(n(5)), ty.Sl(b("int")), n(5), b("bool"), b("float64"), n(1), b("int32")}
@@ -1408,7 +1447,11 @@ func (this CSH) Hash() int32         { return int32(len(this)) }
 	pp.WriteString("package p\n\nimport \"corpus/ext\"\n\nvar _ ext.XN\n\n")
 	for _, d := range env.Decls {
 		if d.Pkg == "" {
-			fmt.Fprintf(&pp, "type %s %s\n", d.Name, d.Under.Go(env, ""))
+			if d.Src != "" {
+				pp.WriteString(d.Src + "\n") // e.g. an alias of an instance of a generic type
+			} else {
+				fmt.Fprintf(&pp, "type %s %s\n", d.Name, d.Under.Go(env, ""))
+			}
 			if d.Methods != "" {
 				pp.WriteString("\n" + gen.MethodSrc(d))
 			}
